@@ -73,6 +73,13 @@ def resolve_callback(prog, fi: FuncInfo, e: ast.AST, node: Node | None, depth: i
             if len(defs) == 1 and defs[0].kind == "assign" and defs[0].value is not None:
                 return resolve_callback(prog, fi, defs[0].value, defs[0].node, depth + 1)
         return None
+    if isinstance(e, ast.Attribute):
+        # a bound method of an object of the package: obj.method
+        rc = prog.receiver_class(fi, e.value)
+        m = prog.repo.find_method(rc, e.attr) if rc is not None else None
+        if m is not None and not isinstance(m.node, ast.Lambda) and len(m.params) >= 2 and not any(d.endswith(("staticmethod", "classmethod")) for d in m.decorators):
+            return Callback(m, m.params[1], {}, "bound")
+        return None
     if isinstance(e, ast.Call):
         nm = prog.resolve_call(fi, e)
         if nm in ("functools.partial", "partial") and e.args:
